@@ -59,10 +59,19 @@ class C07(CompSpec):
         for k in range({"quick": 60, "thorough": 700}[tier]):
             s = sub_seed(seed, k, "C07sim")
             rng = random.Random(s)
-            scen = scenario.normalize(scenario.gen_scenario(rng, max_jobs=9, min_jobs=4, shapes=["random", "diamond", "fanin", "chain"], fail_p=0.5))
+            scen = scenario.normalize(scenario.gen_scenario(rng, max_jobs=9, min_jobs=4, shapes=["random", "diamond", "fanin", "chain", "tri", "tri"], fail_p=0.5))
             for g in scen["groups"]:
                 g["try_add"] = True
                 g["batch"] = rng.randint(2, 3)
+            if scen["shape"] == "tri":
+                # the head of each triple fails the first time, the others succeed: a resubmission pulls them in transitively
+                for j in scen["jobs"]:
+                    j["rc"] = rng.choice([1, 2]) if not j["blocked_by"] and rng.random() < 0.7 else 0
+                    j["flag"] = False
+                scen["groups"] = scen["groups"][:1]
+                for j in scen["jobs"]:
+                    j["group"] = scen["groups"][0]["name"]
+                scen["groups"][0]["time_based"] = False
             t = sim_task(scen, s, len(out))
             if k % 2:
                 scen["resubmit"] = {"rounds": [{"failed": True, "missing": True, "successful": rng.random() < 0.3}]}
